@@ -1008,23 +1008,24 @@ class Gen:
             pairs = []
             # pairs whose indices concatenate to the same digit string
             for _ in range(40):
-                digits = "".join(r.choice("123456789") for _ in range(r.choice([4, 4, 5])))
-                cuts = [c for c in range(1, len(digits)) if int(digits[:c]) < int(digits[c:]) < n + 4]
-                if len(cuts) >= 2:
-                    c1, c2 = r.sample(cuts, 2)
-                    off = r.choice([0, 0, 1, 2, 3])          # the planner's ids may be shifted against the declaration indices
-                    cand = [(int(digits[:c1]) - off, int(digits[c1:]) - off), (int(digits[:c2]) - off, int(digits[c2:]) - off)]
-                    if all(0 <= a < n and 0 <= b < n and a != b for a, b in cand):
-                        pairs = cand
-                        break
+                # (a, 1cd) and (a1, cd): the only way two ordered pairs below 1000 concatenate to the same digits
+                a, c, d = r.randint(1, 9), r.randint(0, 4), r.randint(0, 9)
+                off = r.choice([0, 0, 0, 0, 1, 2])               # the planner's ids may be shifted against the declaration indices
+                cand = [(a - off, 100 + 10 * c + d - off), (10 * a + 1 - off, 10 * c + d - off)]
+                if all(0 <= x < y < n for x, y in cand):
+                    pairs = cand
+                    break
             k = r.randint(2, 6)
             stmts = []
             if pairs:
-                pol = r.choice([('eeq', 'ene'), ('ene', 'eeq'), ('eeq', 'eeq'), ('ene', 'ene')])
+                pol = r.choice([('eeq', 'ene'), ('ene', 'eeq'), ('eeq', 'ene'), ('ene', 'eeq'), ('eeq', 'eeq'), ('ene', 'ene')])
                 stmts = [('c', (pol[0], names[pairs[0][0]], names[pairs[0][1]])), ('c', (pol[1], names[pairs[1][0]], names[pairs[1][1]]))]
             while len(stmts) < k:
                 a, b = r.sample(range(n), 2)
                 stmts.append(('c', (r.choice(['eeq', 'ene']), names[a], names[b])))
+            if r.random() < 0.25:                        # sometimes infeasible: one pair both equal and different
+                f = r.choice(stmts)[1]
+                stmts.append(('c', ('ene' if f[0] == 'eeq' else 'eeq', f[2], f[1])))
             r.shuffle(stmts)
         used = set()
         for st in stmts:
